@@ -24,7 +24,7 @@ def conditions(tier):
     import pipe
     import h_c02 as H
     quick = tier == 'quick'
-    T = 120 if quick else 1200
+    T = 200 if quick else 1200
     conds = []
     posname = ('parameter', 'return value', 'record field')
     for pos in (0, 1, 2):
